@@ -383,6 +383,19 @@ func c14DecodePath(c *core.Ctx) {
 			"(*chain/account.Manager).updateVersion":  "called by Finalise on getChangeLogsByAddress(), i.e. the processor's own journal; an AddEventLog's NewVal is the *types.Event its constructor stored (C14.3)",
 			"chain/transaction.getVotesChangesByLogs": "called by votesChangeByBalanceLog on Manager.GetChangeLogs() of the block being executed locally",
 		}
+		// (a listed function that was written out inside its only caller is represented by that caller)
+		{
+			al := map[string]bool{}
+			for k := range frozen {
+				al[k] = true
+			}
+			expandAllowed(c, al)
+			for k := range al {
+				if _, have := frozen[k]; !have {
+					frozen[k] = "holds the inlined body of a listed function"
+				}
+			}
+		}
 		nUn := 0
 		for _, f := range c.SrcFuncs {
 			if isTestHelper(c, f) {
